@@ -2,7 +2,7 @@
    WaterModel — the executable model of hermes.Water that the correspondence check compares bit for
    bit with the Go kernel — read over the reals.  Only statements here. *)
 From Coq Require Import ZArith Reals List Bool Floats.
-From Hermes Require Import Num RUtil Util WaterModel WaterProofs StepsSweep.
+From Hermes Require Import Num RUtil Util WaterModel WaterProofs StepsSweep WaterRun.
 Local Open Scope R_scope.
 
 (* One sub-step, any number of layers n >= 1, any state, any sub-step length:
@@ -27,6 +27,25 @@ Theorem C01_day_balance : forall (x : water_in (T:=R)) (n k : nat),
     - Rsum (map (fun o => last (wo_q1 o) 0) outs)
     - Rsum (map (fun o => wo_qdrain o) outs).
 Proof. exact day_balance_lemma. Qed.
+
+(* The RUN: any number of days, each with its own inputs and its own number k_d >= 1 of sub-steps of 1/k_d, the
+   water content carried from the end of a day to the start of the next: final storage = initial storage + the sum
+   over the days of (surface flux - clamped uptake - bottom fluxes - drain outflow). *)
+Theorem C01_run_balance : forall (n : nat) (days : list day_spec) (wg : list R),
+  length wg = n -> Forall (day_ok n) days ->
+  storage (fst (run_days n wg days)) = storage wg + snd (run_days n wg days)
+  /\ length (fst (run_days n wg days)) = n.
+Proof. exact (fun n days => run_balance_lemma n days). Qed.
+
+Example C01_run_nonvacuous :
+  let x := {| wi_subd1 := true; wi_wdt := /2; wi_after_sow := true; wi_fluss0 := 3; wi_grw := 20;
+           wi_draidep := 2; wi_draifak := /2; wi_outn := 3; wi_gwauf := 0; wi_eta := 0;
+           wi_wg0 := nil; wi_tp := (1/100 :: 0 :: 0 :: nil);
+           wi_w := (3/10 :: 3/10 :: 3/10 :: nil); wi_wmin := (1/10 :: 1/10 :: 1/10 :: nil);
+           wi_nfk := (1 :: 1 :: 1 :: nil); wi_ev := (0 :: 0 :: 0 :: 0 :: nil); wi_q1 := (0 :: 0 :: 0 :: 0 :: nil);
+           wi_caps := nil |} in
+  Forall (day_ok 3) ((x, 2%nat) :: (x, 2%nat) :: nil).
+Proof. cbv zeta. repeat constructor; cbn; auto. Qed.
 
 (* the reported counters mirror the fluxes: percolation + capillary counter change = 10 * flux at the
    leaching depth - 10 * uptake taken from the groundwater layer; drain counter = 10 * drain outflow *)
@@ -55,5 +74,6 @@ Proof. unfold wf_in; cbn; repeat split; auto. Qed.
 
 Print Assumptions C01_substep_balance.
 Print Assumptions C01_day_balance.
+Print Assumptions C01_run_balance.
 Print Assumptions C01_counters_mirror.
 Print Assumptions C01_steps_exact.
